@@ -76,6 +76,50 @@ Fixpoint fs_get (fs : fsys) (k : string) : doc :=
 Definition dir_prefix : string := "/".
 Definition mk_key (url : string) : string := String.append dir_prefix url.
 
+(* importer.cpp: normaliseDirectorySeparator, normalisePath, pathFromUrl, resolvePath -- the string functions that
+   turn (import URL, base path) into a library key.  The import model below uses them only through [mk_key]
+   (flat directory); they are transcribed and compared with the code separately (driver mode "paths"), and
+   ImportProofs.resolve_path_flat shows that for a normalised directory and a plain file name they give
+   directory ++ name and leave the base path unchanged. *)
+Fixpoint norm_sep (s : string) : string :=
+  match s with
+  | EmptyString => EmptyString
+  | String c r => String (if Ascii.eqb c "\"%char then "/"%char else c) (norm_sep r)
+  end.
+
+(* the prefix of s up to and including its last '/', if it has one *)
+Fixpoint upto_last_slash (s : string) : option string :=
+  match s with
+  | EmptyString => None
+  | String c r => match upto_last_slash r with
+                  | Some p => Some (String c p)
+                  | None => if Ascii.eqb c "/"%char then Some (String c EmptyString) else None
+                  end
+  end.
+
+Definition path_from_url (url : string) : string :=
+  match upto_last_slash (norm_sep url) with Some p => p | None => EmptyString end.
+
+Fixpoint ends_with_slash (s : string) : bool :=
+  match s with
+  | EmptyString => false
+  | String c EmptyString => Ascii.eqb c "/"%char
+  | String _ r => ends_with_slash r
+  end.
+
+Definition normalise_path (p : string) : string :=
+  let n := norm_sep p in
+  match n with
+  | EmptyString => EmptyString
+  | _ => if ends_with_slash n then n else String.append n "/"
+  end.
+
+Definition resolve_path (filename base : string) : string := String.append (path_from_url base) filename.
+
+(* fetchModel's key for an import URL relative to a base, and fetchUnits' base for the imported file *)
+Definition import_key (url base : string) : string := resolve_path (norm_sep url) base.
+Definition new_base (url base : string) : string := String.append base (path_from_url url).
+
 (* utilities.cpp: isStandardUnitName — over the table regenerated from utilities.h *)
 Definition is_std (n : string) : bool := existsb (fun p => String.eqb (fst p) n) standard_units_list.
 
